@@ -7,6 +7,11 @@ V = Path(__file__).resolve().parents[1]
 props = [json.loads(l) for l in (V / "properties.jsonl").read_text().splitlines() if l.strip()]
 
 CLAIMS = {
+    "C19": dict(
+        text="Coq theorems over Model/Sorter.v for every scheduler state (arbitrary closure graph, processing/done sets) and every set-iteration order: the sort-and-slice algorithm returns a valid batch (the n best ready tasks, best last); nothing left behind outranks anything handed out; try_first before lower priorities, try_last only when nothing better is ready; a handed-out task has no remaining predecessor. Tied to the code by trace validation: the real TopologicalSorter is driven by random get_ready(n)/done/from_dag_and_sorter scripts over random bipartite DAGs under several hash seeds and every returned batch must be accepted by the model's valid_batchb (proved equivalent to valid_batch); closure graphs compared; a direct oracle restates the property on each trace. Rejection of try_first+try_last is exercised end-to-end.",
+        note="trusted: Coq kernel + vm_compute; networkx reachability (closure compared per case); harness and oracle; hash seeds sample set orders on the implementation side while the theorem covers all orders.",
+        technique="Coq proof (invariants over arbitrary scheduler states; insertion-sort/top-n lemma) + trace validation of the real scheduler via vm_compute",
+        design="5/C19"),
     "C16": dict(
         text="Coq theorems over Model/Expr.v: the compiler accepts exactly the documented grammar on the unique maximal-munch tokenisation, the denoted formula is unique, keywords only as whole identifiers, matchers = substring/exact membership, no third outcome (no fuel exhaustion). Tied to the code by an exhaustive small-scope sweep (all concatenations of <=5/<=7 lexemes under all truth assignments) plus seeded random expressions, mutations, character soup and matcher runs evaluated both in Coq (vm_compute) and by the implementation.",
         note="trusted: Coq kernel + vm_compute; the correspondence harness; CPython's \\w/str.lower tables read at run time; Python's eval of and/or/not on bools. Interpreter recursion limits are outside the model (known findings F12).",
